@@ -1,21 +1,38 @@
 package p13
 
-import "os"
+import (
+	"os"
+	"strings"
+)
 
 // knownOpen lists the signatures of confirmed genuine defects of /repo that are still open.
 // While a signature is listed the generator (or, where the class cannot be avoided without
 // losing the rest of the domain, the one sub-assertion concerned) steers away from exactly that
-// input class and counts it with vlib.Excluded. A replay (VERIF_REPLAY) and VERIF_NO_EXCLUDE=1
-// always run strict.
+// input class and counts it with vlib.Excluded. A replay (VERIF_REPLAY) always runs strict;
+// VERIF_NO_EXCLUDE=all (or a comma separated list of signatures) switches exclusions off, which
+// is how a proposed repair is verified.
 var knownOpen = map[string]bool{
 	sigMatchDropsCanaryRef: true,
 	sigFinaliseShare:       true,
+	sigDuplicateName:       true,
+	sigForeignNs:           true,
+	sigMixedTooWide:        true,
 	sigFinaliseBackendless: true,
 }
 
 func open(sig string) bool {
-	if os.Getenv("VERIF_NO_EXCLUDE") != "" || os.Getenv("VERIF_REPLAY") != "" {
+	if os.Getenv("VERIF_REPLAY") != "" {
 		return false
+	}
+	if off := os.Getenv("VERIF_NO_EXCLUDE"); off != "" {
+		if off == "all" || off == "1" {
+			return false
+		}
+		for _, s := range strings.Split(off, ",") {
+			if s == sig {
+				return false
+			}
+		}
 	}
 	return knownOpen[sig]
 }
